@@ -27,12 +27,25 @@ assignments are additionally interleaved with merges/splits to full depth on tab
 merge/split/foreign-merge operations (level 1 = every rectangle, level 2 = every ordered cell pair
 and every split from each of the 405 single-rectangle states); in the quick tier level 2 uses the
 top-left/bottom-right orientation of each pair only (all four orientations in thorough);
-(4) the text oracle is the weak reading: the sequence of NON-EMPTY paragraph texts (empty paragraphs
-are not "text"); agreement with the strict paragraph-list model is reported as an extra counter;
+(4) text oracle: the origin of a merge reads exactly the paragraphs of the merged cells in row-major
+order, where a cell holding nothing but ONE empty paragraph — however it is written: <a:p/>,
+<a:p><a:endParaRPr/></a:p>, <a:p><a:pPr/></a:p> — contributes nothing; a difference that consists of
+blank paragraphs only is reported under its own detail (`*-blank-paragraphs`);
 (5) in the quick tier `cell.text` (public API) is read for the cells the last operation worked on and
 the paragraph text of every cell is read from the bare-lxml view; the thorough tier reads every cell
 through both; (6) a full state check is skipped when byte-identical table XML was already checked
 against an identical model state in the same worker process (observations are a function of the XML).
+
+Beyond DESIGN (added after independently seeded faults were missed): (7) API-built tables rewritten
+harness-side (lxml base API on the element, before the first operation) to forms other producers
+write — `api/endpara` (PowerPoint paragraphs: a:endParaRPr in empty and in text paragraphs),
+`api/ppr` (a:pPr-only empty paragraphs), `api/notblpr` (the optional a:tblPr removed; the API-built
+table itself carries the PowerPoint form of a:tblPr: firstRow/bandRow + a:tableStyleId) — shapes up
+to 3x3 to depth 3 (endpara) / 2 (quick; thorough: 3, and shapes with a side of 4 to depth 2);
+(8) every top-level table of the repository's PowerPoint-authored decks (12 tables, up to 4x5, two
+with pre-existing merged regions) is an initial state as it is: the model starts from the bare-lxml
+reading of the file (regions, paragraphs, sizes; frame size == sum is demanded from the first size
+assignment on unless it already held in the file); depth 2 (<= 9 cells) / 1 in quick, 3 / 2 thorough.
 
 Signatures: `C14|<family>|<rule>:<detail>|<r>x<c>|<creation path, text cfg, size variant>|<history>`.
 Violating transitions are grouped by rule family (rectangular / regions / text / sizes / refusal /
@@ -75,9 +88,12 @@ ASSUMPTIONS = [
     "full-depth search on the (non-divisible, non-divisible) size variant only; the other 8 (width,height) "
     "variants (divisible / non-divisible / smaller than the count) are explored to depth 1",
     "text alphabet: a distinct letter in every cell; plus a 'mixed' configuration with empty cells and "
-    "two-paragraph cells; no runs with formatting, no line breaks, no fields",
-    "text oracle is the weak reading (sequence of non-empty paragraph texts in row-major order of the merged "
-    "cells); cells of a region other than the origin must read as empty",
+    "two-paragraph cells; formatted runs / line breaks / fields only as far as the corpus tables have them",
+    "text oracle: origin paragraphs == paragraphs of the merged cells in row-major order, a cell with a single "
+    "empty paragraph (in any XML form) contributing nothing; cells of a region other than the origin read as empty",
+    "foreign XML forms (a:endParaRPr / a:pPr-only empty paragraphs, no a:tblPr) are produced by a harness-side "
+    "rewrite of API-built tables; corpus tables are taken as they are, their initial model state is read from the "
+    "file with bare lxml (trusted)",
     "quick tier: cell.text (public API) is read for the cells the last operation touched, all cells are read from "
     "the serialised XML with bare lxml; thorough tier: every cell through both",
     "a merge of a single unmerged cell with itself may either be a no-op or raise ValueError (unchanged either way)",
@@ -108,6 +124,92 @@ def size_for(n, variant):
     return n - 1  # "small": smaller than the count (0 for a single row/column)
 
 
+FORMS = ("endpara", "ppr", "notblpr")
+VIA_ORDER = ("api", "api/endpara", "api/ppr", "api/notblpr", "ph")
+
+
+def split_via(via):
+    """'api' | 'ph' | 'api/<form>' | 'corpus:<deck relative to the repo>:<slide idx>:<shape idx>'."""
+    if via.startswith("corpus:"):
+        return "corpus", via[len("corpus:"):]
+    if "/" in via:
+        base, form = via.split("/", 1)
+        return base, form
+    return via, None
+
+
+def rewrite_form(gf_element, form):
+    """Harness-side rewrite (lxml base API on the element) of an API-built table to forms other producers write.
+
+    endpara: PowerPoint's paragraphs — an empty cell is <a:p><a:endParaRPr lang="en-US"/></a:p>, a text
+             paragraph has <a:endParaRPr lang="en-US" dirty="0"/> after its runs;
+    ppr:     an empty paragraph carrying only properties, <a:p><a:pPr algn="ctr"/></a:p> (text paragraphs
+             get the same a:pPr as first child);
+    notblpr: the optional a:tblPr removed (the API-built table already has the PowerPoint form of a:tblPr:
+             firstRow/bandRow attributes + a:tableStyleId child)."""
+    tbl = gf_element.find(".//" + A + "tbl")
+    if form == "notblpr":
+        for el in tbl.findall(A + "tblPr"):
+            tbl.remove(el)
+        return
+    for p in tbl.iter(A + "p"):
+        if form == "endpara":
+            e = etree.SubElement(p, A + "endParaRPr")
+            e.set("lang", "en-US")
+            if len(p) > 1:
+                e.set("dirty", "0")
+        elif form == "ppr":
+            e = p.makeelement(A + "pPr", {"algn": "ctr"})
+            p.insert(0, e)
+        else:
+            raise HarnessError("unknown form %r" % form)
+
+
+def scan_table(gf_element):
+    """Bare-lxml reading of a table that already exists in a file: shape, regions, paragraphs, sizes.
+    Returns a dict, with key 'skip' set to a reason when the table is outside the model's vocabulary."""
+    root = etree.fromstring(etree.tostring(gf_element))
+    tbl = root.find(".//" + A + "tbl")
+    out = {"skip": None}
+    if tbl is None:
+        out["skip"] = "no a:tbl"
+        return out
+    trs = tbl.findall(A + "tr")
+    tcs = [tr.findall(A + "tc") for tr in trs]
+    grid = tbl.findall(A + "tblGrid/" + A + "gridCol")
+    r, c = len(trs), len(grid)
+    out.update(r=r, c=c, widths=[int(g.get("w")) for g in grid], heights=[int(t.get("h")) for t in trs])
+    if r == 0 or c == 0 or any(len(row) != c for row in tcs):
+        out["skip"] = "not rectangular"
+        return out
+    rects, spanned, paras = [], set(), []
+    for i in range(r):
+        prow = []
+        for j in range(c):
+            tc = tcs[i][j]
+            if tc.find(A + "txBody") is None:
+                out["skip"] = "a cell without a:txBody (reading its text would add one)"
+                return out
+            ps = _bare_paragraphs(tc) or [""]
+            if any("\n" in x for x in ps):
+                out["skip"] = "newline inside a paragraph"
+                return out
+            prow.append(ps)
+            hm, vm = _xml_bool(tc.get("hMerge")), _xml_bool(tc.get("vMerge"))
+            gs_, rs_ = int(tc.get("gridSpan", "1")), int(tc.get("rowSpan", "1"))
+            if hm or vm:
+                spanned.add((i, j))
+            elif gs_ > 1 or rs_ > 1:
+                rects.append((i, j, rs_, gs_))
+        paras.append(prow)
+    model = TableRef(r, c, out["widths"], out["heights"], paras)
+    if not model.set_regions(rects) or spanned != {(i, j) for i in range(r) for j in range(c) if model.is_spanned(i, j)}:
+        out["skip"] = "pre-existing merges are not disjoint rectangles with hMerge/vMerge on exactly the other cells"
+        return out
+    out.update(rects=rects, paras=paras)
+    return out
+
+
 def cfg_texts(cfg):
     """Paragraph lists per cell for a configuration."""
     _via, r, c, _wv, _hv, txt, _depth, _sz, _ori = cfg
@@ -132,9 +234,9 @@ def cfg_label(cfg):
 
 def cfg_rank(cfg):
     via, r, c, wv, hv, txt = cfg[:6]
-    wi = VARIANTS.index(wv) if wv in VARIANTS else 9  # placeholder-created tables have no size variant
+    wi = VARIANTS.index(wv) if wv in VARIANTS else 9  # placeholder-created / corpus tables have no size variant
     hi = VARIANTS.index(hv) if hv in VARIANTS else 9
-    return (r * c, r, c, 0 if via == "api" else 1, 0 if txt == "letters" else 1,
+    return (r * c, r, c, VIA_ORDER.index(via) if via in VIA_ORDER else 9, via, 0 if txt == "letters" else 1,
             0 if (wv, hv) == ("nondiv", "nondiv") else 1, wi, hi)
 
 
@@ -178,12 +280,13 @@ def canon_of(gf_element):
 
 
 class Live:
-    __slots__ = ("slide", "gf", "foreign", "init_widths", "init_heights", "requested")
+    __slots__ = ("slide", "gf", "foreign", "init_widths", "init_heights", "requested", "scan")
 
     def __init__(self, slide, gf, foreign):
         self.slide, self.gf, self.foreign = slide, gf, foreign
         self.init_widths = self.init_heights = None
         self.requested = None
+        self.scan = None
 
 
 class CreationFailed(Exception):
@@ -195,6 +298,7 @@ class Env:
 
     def __init__(self):
         self._slide = None
+        self._blobs = {}
 
     def _api_slide(self):
         if self._slide is None:
@@ -220,18 +324,34 @@ class Env:
 
     def _build(self, cfg, hist):
         via, r, c, wv, hv, _txt, _depth, _sz, _ori = cfg
-        if via == "api":
+        base, arg = split_via(via)
+        if base == "api":
             slide = self._api_slide()
             w, h = size_for(c, wv), size_for(r, hv)
             gf = slide.shapes.add_table(r, c, 91440, 182880, w, h)
             requested = (w, h)
-        else:
+        elif base == "ph":
             from pptx import Presentation
             prs = Presentation(PH_FILE)
             slide = prs.slides[PH_SLIDE_IDX]
             ph = slide.shapes[0]
             requested = (int(ph.width), None)
             gf = ph.insert_table(r, c)
+            self._keep = prs
+        else:  # a table of a PowerPoint-authored deck of the corpus, as it is
+            import io
+            from pptx import Presentation
+            rel, si, hi = arg.rsplit(":", 2)
+            blob = self._blobs.get(rel)
+            if blob is None:
+                with open(os.path.join(os.environ.get("VERIF_REPO", "/repo"), rel), "rb") as f:
+                    blob = self._blobs[rel] = f.read()
+            prs = Presentation(io.BytesIO(blob))
+            slide = prs.slides[int(si)]
+            gf = slide.shapes[int(hi)]
+            if not getattr(gf, "has_table", False):
+                raise HarnessError("%s is not a table" % via)
+            requested = None
             self._keep = prs
         foreign = slide.shapes.add_table(r, c, 91440, 3000000, 1000000, 1000000)
         ft = foreign.table
@@ -243,12 +363,19 @@ class Env:
         root = etree.fromstring(etree.tostring(gf.element))
         live.init_widths = [int(g.get("w")) for g in root.iter(A + "gridCol")]
         live.init_heights = [int(t.get("h")) for t in root.iter(A + "tr")]
-        texts = cfg_texts(cfg)
-        table = gf.table
-        for i in range(r):
-            for j in range(c):
-                if texts[i][j] != [""]:
-                    table.cell(i, j).text = "\n".join(texts[i][j])
+        if base == "corpus":
+            live.scan = scan_table(gf.element)
+            if live.scan["skip"] or (live.scan["r"], live.scan["c"]) != (r, c):
+                raise HarnessError("corpus table %s changed under the run: %r" % (via, live.scan))
+        else:
+            texts = cfg_texts(cfg)
+            table = gf.table
+            for i in range(r):
+                for j in range(c):
+                    if texts[i][j] != [""]:
+                        table.cell(i, j).text = "\n".join(texts[i][j])
+            if arg is not None:
+                rewrite_form(gf.element, arg)
         for op in hist:
             exc = apply_op(live, op)
             if exc is not None:
@@ -270,6 +397,16 @@ class Env:
 
 def initial_model(cfg, live):
     r, c = cfg[1], cfg[2]
+    if live.scan is not None:
+        # a table that pre-exists in a file: the model starts from what the file says (bare-lxml reading)
+        sc = live.scan
+        m = TableRef(r, c, sc["widths"], sc["heights"], sc["paras"])
+        m.set_regions(sc["rects"])
+        root = etree.fromstring(etree.tostring(live.gf.element))
+        ext = root.find(P + "xfrm/" + A + "ext")
+        m.sync_w = ext is not None and int(ext.get("cx")) == sum(sc["widths"])
+        m.sync_h = ext is not None and int(ext.get("cy")) == sum(sc["heights"])
+        return m
     if len(live.init_widths) != c or len(live.init_heights) != r:
         # creation itself is broken; the model takes what is demanded and the state check reports it
         return TableRef(r, c, [0] * c, [0] * r, cfg_texts(cfg))
@@ -423,7 +560,12 @@ def check_state(live, model, stats=None, touched=None):
                 else:
                     detail = who + "-text-extra"
             pr.append(("text", detail, "cell(%d,%d).text paragraphs %r, model %r" % (i, j, got, exp)))
-        elif use_api and nonempty(bare) != we:
+        elif got != exp:
+            # same text, but blank paragraphs appeared / disappeared: an empty cell (one empty paragraph, however
+            # it is written: <a:p/>, <a:p><a:endParaRPr/></a:p>, <a:p><a:pPr/></a:p>) contributes nothing
+            who = "spanned" if model.is_spanned(i, j) else ("origin" if model.is_origin(i, j) else "cell")
+            pr.append(("text", who + "-blank-paragraphs", "cell(%d,%d).text paragraphs %r, model %r" % (i, j, got, exp)))
+        elif use_api and bare != exp:
             pr.append(("text", "xml-differs-from-api", "cell(%d,%d) XML paragraphs %r, model %r" % (i, j, bare, exp)))
 
     # -- sizes --
@@ -433,17 +575,17 @@ def check_state(live, model, stats=None, touched=None):
         pr.append(("size-readback", "col", "column widths %r, model %r" % (widths, model.widths)))
     if heights != model.heights:
         pr.append(("size-readback", "row", "row heights %r, model %r" % (heights, model.heights)))
-    if int(gf.width) != sum(widths):
+    if model.sync_w and int(gf.width) != sum(widths):
         pr.append(("frame-size", "width", "frame width %d != sum of column widths %d %r" % (gf.width, sum(widths), widths)))
-    if int(gf.height) != sum(heights):
+    if model.sync_h and int(gf.height) != sum(heights):
         pr.append(("frame-size", "height", "frame height %d != sum of row heights %d %r" % (gf.height, sum(heights), heights)))
     xw = [int(g.get("w")) for g in grid]
     xh = [int(t.get("h")) for t in trs]
     if xw != widths or xh != heights:
         pr.append(("size-readback", "xml", "XML gridCol/@w %r tr/@h %r, API %r %r" % (xw, xh, widths, heights)))
-    if cx != sum(xw):
+    if model.sync_w and cx != sum(xw):
         pr.append(("frame-size", "xml-width", "a:ext/@cx %d != sum of gridCol/@w %d" % (cx, sum(xw))))
-    if cy != sum(xh):
+    if model.sync_h and cy != sum(xh):
         pr.append(("frame-size", "xml-height", "a:ext/@cy %d != sum of tr/@h %d" % (cy, sum(xh))))
     return pr
 
@@ -451,6 +593,8 @@ def check_state(live, model, stats=None, touched=None):
 def creation_problems(live, cfg, model):
     """Checks specific to a freshly created table (the state check is run by the caller)."""
     pr = []
+    if live.requested is None:
+        return pr  # a table that pre-exists in a file: nothing was requested
     rw, rh = live.requested
     gf = live.gf
     if sum(live.init_widths) != rw:
@@ -622,7 +766,7 @@ def _expand(part, chunk):
             pr = creation_problems(live, cfg, model)
             pr.extend(check_state(live, model, stats))
             canon0 = canon_of(live.gf.element)
-            part.outcome("create", "%s/%s" % (("w=%s,h=%s" % (cfg[3], cfg[4])) if cfg[0] == "api" else "placeholder",
+            part.outcome("create", "%s/%s" % (("w=%s,h=%s" % (cfg[3], cfg[4])) if cfg[0] == "api" else cfg[0].split(":")[0],
                                                 "ok" if not pr else "problem"))
             report(cfg, (), None, pr)
             if canon0 is not None:
@@ -673,7 +817,7 @@ def _expand(part, chunk):
         part.count(k, v)
 
 
-def make_cfgs(thorough, have_ph):
+def make_cfgs(thorough, have_ph, corpus_tables=()):
     cfgs = []
     n = 4
     for r in range(1, n + 1):
@@ -689,9 +833,50 @@ def make_cfgs(thorough, have_ph):
                         cfgs.append(("api", r, c, wv, hv, "letters", 1, 1, 0))
             if have_ph and not big:
                 cfgs.append(("ph", r, c, "ph", "ph", "letters", 1, 1, 0))
+    # tables in the forms other producers write (harness-side rewrite of an API-built table)
+    for r in range(1, n + 1):
+        for c in range(1, n + 1):
+            big = max(r, c) >= 4
+            if big and not thorough:
+                continue
+            d3 = 2 if big else 3
+            d2 = 2 if (big or not thorough) else 3
+            cfgs.append(("api/endpara", r, c, "nondiv", "nondiv", "mixed", d3, 0, 0))
+            cfgs.append(("api/ppr", r, c, "nondiv", "nondiv", "mixed", d2, 0, 0))
+            cfgs.append(("api/notblpr", r, c, "nondiv", "nondiv", "letters", d2, 0, 0))
+    # tables of the PowerPoint-authored corpus decks, as they are
+    for via, r, c in corpus_tables:
+        small = r * c <= 9
+        depth = (3 if small else 2) if thorough else (2 if small else 1)
+        cfgs.append((via, r, c, "corpus", "corpus", "corpus", depth, 1 if small else 0, 0))
     # 6x6: every rectangle, then every pair / split from each single-rectangle state
     cfgs.append(("api", 6, 6, "nondiv", "nondiv", "letters", 2, 0, 0 if thorough else 1))
     return cfgs
+
+
+def discover_corpus_tables():
+    """[(via, r, c)] for every top-level table shape of the repository's decks, plus the skipped ones."""
+    from mc.drivers import fixtures
+    from pptx import Presentation
+    found, skipped = [], []
+    repo = os.environ.get("VERIF_REPO", "/repo")
+    for path in fixtures.corpus():
+        try:
+            prs = Presentation(path)
+        except Exception:  # noqa: BLE001 - opening the corpus is C16's business
+            continue
+        rel = os.path.relpath(path, repo)
+        for si, slide in enumerate(prs.slides):
+            for hi, sh in enumerate(slide.shapes):
+                if not getattr(sh, "has_table", False):
+                    continue
+                via = "corpus:%s:%d:%d" % (rel, si, hi)
+                sc = scan_table(sh.element)
+                if sc["skip"] or sc["r"] * sc["c"] > 36:
+                    skipped.append("%s: %s" % (via, sc["skip"] or "too large"))
+                else:
+                    found.append((via, sc["r"], sc["c"]))
+    return sorted(found), skipped
 
 
 def run(ctx):
@@ -699,7 +884,13 @@ def run(ctx):
     _FULL_API_TEXT = bool(ctx.thorough)
     have_ph = os.path.exists(PH_FILE)
     ctx.extra["placeholder_creation_path"] = "explored" if have_ph else "skipped: %s not found" % PH_FILE
-    _CFGS = make_cfgs(ctx.thorough, have_ph)
+    corpus_tables, skipped = discover_corpus_tables()
+    ctx.extra["corpus_tables_explored"] = [v for v, _r, _c in corpus_tables]
+    ctx.extra["corpus_tables_skipped"] = skipped
+    if os.path.isdir(os.path.join(os.environ.get("VERIF_REPO", "/repo"), "features", "steps", "test_files")) \
+            and len(corpus_tables) < 5:
+        raise HarnessError("only %d corpus tables found (floor 5): %r" % (len(corpus_tables), skipped))
+    _CFGS = make_cfgs(ctx.thorough, have_ph, corpus_tables)
     budget_s = float(os.environ.get("VERIF_C14_BUDGET_S", "900")) if ctx.thorough else 1e9
     t0 = time.time()
 
@@ -758,7 +949,7 @@ def run(ctx):
     ctx.count("states", len(all_states))
     ctx.extra["max_depth_completed_per_shape"] = "see caps" if capped else "all bounds completed"
     ctx.extra["operations_depth_completed"] = completed + 1
-    ctx.extra["depth_bound_per_shape"] = {"%dx%d" % (c[1], c[2]): c[6] for c in _CFGS if c[3:6] == ("nondiv", "nondiv", "letters")}
+    ctx.extra["depth_bound_per_shape"] = {"%dx%d" % (c[1], c[2]): c[6] for c in _CFGS if c[0] == "api" and c[3:6] == ("nondiv", "nondiv", "letters")}
     ctx.extra["configurations"] = len(_CFGS)
     ctx.extra["strict_paragraph_model_mismatches"] = ctx.counters.pop("strict_paragraph_mismatch", 0)
     per_shape = {}
